@@ -1846,15 +1846,20 @@ class Tensor:
         #
         # Create new shape list
         #
-        shape = copy.deepcopy(self.getShape())
+        # Note: only a shape that is known authoritatively is passed on
+        #       as the shape of the result, an estimate is not a tuple
+        #       for an empty rank and is re-estimated for the result
+        #
+        shape = copy.deepcopy(self.getShape(authoritative=True))
 
-        for d in range(levels):
-            s = shape[depth + d]
-            shape[depth + d] = s[0]
-            if len(s) == 2:
-                shape.insert(depth + d + 1, s[1])
-            else:
-                shape.insert(depth + d + 1, s[1:])
+        if shape:
+            for d in range(levels):
+                s = shape[depth + d]
+                shape[depth + d] = s[0]
+                if len(s) == 2:
+                    shape.insert(depth + d + 1, s[1])
+                else:
+                    shape.insert(depth + d + 1, s[1:])
 
         return rank_ids, shape
 
